@@ -27,6 +27,9 @@ func init() {
 		{Name: "Delete compacts the slot of the searched node, not of the unlinked one", File: mw, Old: "\tz = this.delete(z)\n", New: "\tthis.delete(z)\n", Expect: "successor-transfer"},
 		{Name: "search descends the wrong way", File: mw, Old: "\t\tif cmp := Compare(p.Key, key); cmp < 0 {\n\t\t\tp = p.Right", New: "\t\tif cmp := Compare(p.Key, key); cmp < 0 {\n\t\t\tp = p.Left", Expect: "descent-orientation :: mapImp.search"},
 		{Name: "mapDelete routed to Lookup", File: mw, Old: "func mapDelete(m: *mapImp, k: interface{}) {\n\tif m == nil {\n\t\treturn\n\t}\n\tm.Delete(k)", New: "func mapDelete(m: *mapImp, k: interface{}) {\n\tif m == nil {\n\t\treturn\n\t}\n\tm.Lookup(k)", Expect: "operation-routing :: mapDelete"},
+		{Name: "Delete re-parents the left child twice after compaction", File: mw, Old: "\t\tif lastNode.Right != this.NIL {\n\t\t\tlastNode.Right.SetParent(lastNode)", New: "\t\tif lastNode.Right != this.NIL {\n\t\t\tlastNode.Left.SetParent(lastNode)", Expect: "nil-guard-target"},
+		{Name: "map delete helper wraps an interface key instead of converting it", File: "internal/backends/compiler_wat/wir/value_map.go", Old: "\t\tki := NewLocal(\"ki\", ei_type)\n\t\tf.Locals = append(f.Locals, ki)\n\n\t\tif k_is_iface {\n\t\t\tf.Insts = append(f.Insts, module.EmitGenChangeInterface(k, ei_type)...)\n\t\t} else {\n\t\t\tf.Insts = append(f.Insts, module.EmitGenMakeInterface(k, ei_type)...)\n\t\t}\n\t\tf.Insts = append(f.Insts, ki.EmitPop()...)\n\n\t\tf.Insts = append(f.Insts, m.EmitPushNoRetain()...)\n\t\tf.Insts = append(f.Insts, ki.EmitPushNoRetain()...)\n\t\tf.Insts = append(f.Insts, wat.NewInstCall(\"runtime.mapDelete\"))", New: "\t\tki := NewLocal(\"ki\", ei_type)\n\t\tf.Locals = append(f.Locals, ki)\n\n\t\tf.Insts = append(f.Insts, module.EmitGenMakeInterface(k, ei_type)...)\n\t\tf.Insts = append(f.Insts, ki.EmitPop()...)\n\n\t\tf.Insts = append(f.Insts, m.EmitPushNoRetain()...)\n\t\tf.Insts = append(f.Insts, ki.EmitPushNoRetain()...)\n\t\tf.Insts = append(f.Insts, wat.NewInstCall(\"runtime.mapDelete\"))", Expect: "interface-boxing-guard"},
+		{Name: "map update helper tests the value's type for the key", File: "internal/backends/compiler_wat/wir/value_map.go", Old: "\t\tif k_is_iface {\n\t\t\tf.Insts = append(f.Insts, module.EmitGenChangeInterface(k, ei_type)...)\n\t\t} else {\n\t\t\tf.Insts = append(f.Insts, module.EmitGenMakeInterface(k, ei_type)...)\n\t\t}\n\t\tf.Insts = append(f.Insts, ki.EmitPop()...)\n\n\t\tif v_is_iface {", New: "\t\tif v_is_iface {\n\t\t\tf.Insts = append(f.Insts, module.EmitGenChangeInterface(k, ei_type)...)\n\t\t} else {\n\t\t\tf.Insts = append(f.Insts, module.EmitGenMakeInterface(k, ei_type)...)\n\t\t}\n\t\tf.Insts = append(f.Insts, ki.EmitPop()...)\n\n\t\tif v_is_iface {", Expect: "interface-boxing-guard"},
 		{Name: "struct key comparison skips later fields", File: "internal/backends/compiler_wat/wir/value_struct.go", Old: "\t\tblock.Insts = append(block.Insts, t1.emitCompare(t2)...)\n", New: "\t\tif i == 0 {\n\t\t\tblock.Insts = append(block.Insts, t1.emitCompare(t2)...)\n\t\t}\n", Expect: "comparator-completeness"},
 	}})
 }
@@ -134,7 +137,8 @@ func firstDiff(a, b string) string {
 func runC13(c *Ctx) {
 	c.Explain = "Decides structural clauses of the runtime map (a red-black tree in waroot/src/runtime/map.wa) from its parsed source: (1) mirror-symmetry: the else arms of insertFixup and deleteFixup equal their then arms with Left/Right and leftRotate/rightRotate exchanged (the source states this invariant), and leftRotate equals rightRotate under the same exchange; " +
 		"(2) descent-orientation: insert and search descend left exactly when the probe key compares below the node's key and right when above; (3) successor-transfer: when delete unlinks the successor of a node with two children, every payload field (Key, Val) of the successor is moved into the node, delete returns the unlinked node, and Delete compacts the node list for that returned node; " +
-		"(4) operation-routing: each runtime entry point the back end calls (mapMake, mapUpdate, mapLookup, mapDelete, mapLen, mapNext) exists with the arity the back end uses and forwards to the method of its role; (5) comparator-completeness: the generated struct key comparison compares every field unconditionally, in order. " +
+		"(4) operation-routing: each runtime entry point the back end calls (mapMake, mapUpdate, mapLookup, mapDelete, mapLen, mapNext) exists with the arity the back end uses and forwards to the method of its role; (5) comparator-completeness: the generated struct key comparison compares every field unconditionally, in order; " +
+		"(6) nil-guard-target: every `if X.Left != this.NIL {…}` (or .Right) in map.wa works on the child it tested, not on the other one; (7) interface-boxing-guard: every MakeInterface site of the generated map helpers is the else arm of the `is interface` test of that operand's type, with ChangeInterface in the then arm. " +
 		"NOT decided: the red-black rebalancing itself, iteration under mutation, hashing-free complexity."
 	c.Trusted = []string{"the repository's Wa parser as front end", "go/packages, go/types for the Go side of rule 5"}
 	std := LoadWaStd(c, "mirror-symmetry")
@@ -204,6 +208,8 @@ func runC13(c *Ctx) {
 		rs := mirrorNorm(waTokens(waSrc(std, mf, r.Decl.Body)), false)
 		c.Check(ls == rs, "mirror-symmetry", "mapImp.leftRotate / mapImp.rightRotate", std.Pos(mf, r.Decl.Pos()), "rightRotate = leftRotate with left and right exchanged", "the two rotations are not mirror images (leftRotate mirrored vs rightRotate: "+firstDiff(ls, rs)+"): a rotation that forgets a link or a parent update corrupts the tree")
 	}
+
+	c13NilGuardTarget(c, std, mf)
 
 	// (2) descent orientation
 	c13Descent(c, std, mf, need("descent-orientation", "mapImp.insert"), "mapImp.insert")
@@ -298,6 +304,7 @@ func runC13(c *Ctx) {
 	// (5) comparator completeness (Go side)
 	p := c.Load(LoadOpt{Light: true}, "./internal/backends/compiler_wat/wir")
 	if wp := p.MustPkg("comparator-completeness", "internal/backends/compiler_wat/wir"); wp != nil {
+		c13InterfaceBoxing(c, p, wp)
 		s, fd := seqOf(p, wp, "aStruct.emitCompare")
 		if fd == nil {
 			c.Undecided("comparator-completeness", "aStruct.emitCompare", "", "function not found")
